@@ -181,7 +181,7 @@ func generateStatementMatrix(stmts [][]*tree.Node, annotations interface{}, stmt
 
 		// Include statement-level annotations if activated and existing in input
 		if include_ANNOTATIONS && annotations != nil {
-			entryMap[tree.STATEMENT_ANNOTATION] = annotations.(string)
+			entryMap[tree.STATEMENT_ANNOTATION] = performOutputSpecificAdjustments(annotations.(string), outputType)
 		}
 		// Iterate over component index (i.e., column) covering conventional components
 		for componentIdx := range statement {
